@@ -30,6 +30,7 @@ Monitor clauses (computed from the implementation's dumps / operation history on
 import LndModel.Prelude.Lines
 import LndModel.C01.Model
 import LndModel.C02.Model
+import LndModel.C02.Spec
 import LndModel.C02.Total
 import LndModel.C02.Lemmas
 
@@ -526,15 +527,6 @@ def systemMonitors (s : St) : IO St := do
 
 /-! ### the signed projection (computed from the implementation's pre-crash dump only) -/
 
-/-- heights `a` (before) and `b` (after restore) compare identically in every comparison the code
-    makes: `= 0`, `≤ tail` (for every later tail as well), `= pending height`. -/
-def hEquiv (t a b : Nat) : Bool :=
-  ((a == 0) == (b == 0)) && (decide (a ≤ t) == decide (b ≤ t)) && (decide (a ≤ t) || a == b)
-
-/-- a received but not yet revoked-for commitment is not durable: its heights vanish. -/
-def zeroPendL (lt : Nat) (e : Entry) : Entry :=
-  { e with addL := if e.addL > lt then 0 else e.addL, rmvL := if e.rmvL > lt then 0 else e.rmvL }
-
 structure Proj where
   ll : Nat
   lc : Nat
@@ -547,48 +539,32 @@ structure Proj where
   lt : Nat
   rt : Nat
   dropped : Nat
+  node : Node
 deriving Repr
 
-def projOf (d : NDump) : Option Proj :=
-  match d.chainOf .loc, (d.chainOf .rem), (d.chainOf .rem).getLast? with
-  | ltail :: _, rtail :: _, some rtip =>
-    let lt := ltail.cm.height
-    let rt := rtail.cm.height
-    -- only what is covered by a signature we sent / a commitment we acknowledged
-    let l1 := (d.logL.filter (fun e => decide (e.logIndex < rtip.cm.ourMsg))).map (zeroPendL lt)
-    let r1 := (d.logR.filter (fun e => decide (e.logIndex < ltail.cm.theirMsg))).map (zeroPendL lt)
-    let logL : Log := { entries := l1, logIndex := rtip.cm.ourMsg, htlcCounter := rtip.cm.ourHtlc,
-                        modified := ((r1.filter Entry.isRes).map Entry.parent) }
-    let logR : Log := { entries := r1, logIndex := ltail.cm.theirMsg, htlcCounter := ltail.cm.theirHtlc,
-                        modified := ((l1.filter Entry.isRes).map Entry.parent) }
-    -- what both tails have fully resolved is garbage the next compaction removes
-    let (l2, r2) := compactLogs lt rt logL logR
-    some { ll := rtip.cm.ourMsg, lc := rtip.cm.ourHtlc, rl := ltail.cm.theirMsg, rc := ltail.cm.theirHtlc,
-           logL := l2.entries, logR := r2.entries, lmod := sortNat l2.modified.eraseDups,
-           rmod := sortNat r2.modified.eraseDups, lt := lt, rt := rt,
-           dropped := (d.logL.length + d.logR.length) - (l2.entries.length + r2.entries.length) }
-  | _, _, _ => none
+/-- the signed projection (`LndModel.C02.signedProj`) of a dumped node. -/
+def projOf (cfg : Cfg) (d : NDump) : Option Proj :=
+  if (d.chainOf .loc).isEmpty || (d.chainOf .rem).isEmpty then none else
+  let p := signedProj (nodeOfDump cfg d)
+  some { ll := p.logL.logIndex, lc := p.logL.htlcCounter, rl := p.logR.logIndex, rc := p.logR.htlcCounter,
+         logL := p.logL.entries, logR := p.logR.entries, lmod := sortNat p.logL.modified.eraseDups,
+         rmod := sortNat p.logR.modified.eraseDups, lt := p.chainL.tail.height, rt := p.chainR.tail.height,
+         dropped := (d.logL.length + d.logR.length) - (p.logL.entries.length + p.logR.entries.length),
+         node := p }
 
 def entryStr (e : Entry) : String :=
   let t := match e.ty with | .add => "add" | .settle => "settle" | .fail => "fail" | .malformed => "malformed" | .feeUpd => "fee"
   s!"[{t} logIndex={e.logIndex} htlc={e.htlcIndex} parent={e.parent} amt={e.amt} addHeights={e.addL},{e.addR} removeHeights={e.rmvL},{e.rmvR}]"
 
-def keyOf (e : Entry) : Nat × Nat := (if e.isAdd then 0 else 1, if e.isAdd then e.htlcIndex else e.logIndex)
-
-def sameEntry (lt rt : Nat) (x p : Entry) : Bool :=
-  x.ty == p.ty && x.amt == p.amt && x.logIndex == p.logIndex && x.htlcIndex == p.htlcIndex && x.parent == p.parent &&
-  (x.ty != .add || (x.expiry == p.expiry && x.hash == p.hash)) &&
-  hEquiv lt x.addL p.addL && hEquiv lt x.rmvL p.rmvL && hEquiv rt x.addR p.addR && hEquiv rt x.rmvR p.rmvR
-
 /-- order-insensitive comparison of a projected log with a restored log. -/
 def logProjDiff (nm : String) (lt rt : Nat) (exp got : List Entry) : Option String :=
-  match exp.find? (fun x => !(got.any (fun p => keyOf p == keyOf x && sameEntry lt rt x p))) with
+  match exp.find? (fun x => !(got.any (fun p => entryKey p == entryKey x && eEquiv lt rt x p))) with
   | some x =>
     -- the node has never revoked (no unsigned-acked key yet): AdvanceCommitChainTail returns early
-    let tag := if nm == "local log" && lt == 0 && !x.isAdd && !(got.any (fun p => keyOf p == keyOf x)) then " tag=first-advance" else ""
-    some s!"{nm}: signed update lost or changed by the restart: {entryStr x} restored as {(got.filter (fun p => keyOf p == keyOf x)).map entryStr} (local/remote tail heights {lt},{rt}){tag}"
+    let tag := if nm == "local log" && lt == 0 && !x.isAdd && !(got.any (fun p => entryKey p == entryKey x)) then " tag=first-advance" else ""
+    some s!"{nm}: signed update lost or changed by the restart: {entryStr x} restored as {(got.filter (fun p => entryKey p == entryKey x)).map entryStr} (local/remote tail heights {lt},{rt}){tag}"
   | none =>
-    match got.find? (fun p => !(exp.any (fun x => keyOf p == keyOf x))) with
+    match got.find? (fun p => !(exp.any (fun x => entryKey p == entryKey x))) with
     | some p => some s!"{nm}: restart produced an update that was not part of the signed state: {entryStr p}"
     | none => if exp.length != got.length then some s!"{nm}: {exp.length} signed updates, {got.length} restored" else none
 
@@ -608,7 +584,8 @@ def cdumpEq (a b : CDump) : Bool :=
 /-- the monitor of `restore_is_signed_projection`: `pre` = live dump before, `post` = restored. -/
 def projectionMonitor (s : St) (node : String) (pre post : NDump) (real : Bool := false) : IO St := do
   let mut s := s
-  match projOf pre with
+  let before := s.monitorFails
+  match projOf (s.cfgOf node) pre with
   | none => return s
   | some p =>
     s := { s with droppedEntries := s.droppedEntries + p.dropped, keptEntries := s.keptEntries + p.logL.length + p.logR.length }
@@ -635,6 +612,9 @@ def projectionMonitor (s : St) (node : String) (pre post : NDump) (real : Bool :
       if real && s.taint.isNone then s := { s with taint := some "fee-order" }
     if let some d := feeOrderBad post.logR then
       s ← monitor s "fee-order" s!"node={node} remote log: {d}"
+    -- the formal relation itself (every finer clause above is a consequence of it)
+    if s.monitorFails == before && !nodeEquiv p.node (nodeOfDump (s.cfgOf node) post) then
+      s ← monitor s "restore-projection" s!"node={node} restored state is not ≈ to the signed projection of the pre-crash state"
     return s
 
 /-! ### flush: finish the dumps read since the last operation -/
